@@ -127,61 +127,68 @@ func panicKeyFromLog(log string) (key, value string) {
 }
 
 func runSockets(r *mon.Run, s *rpcSvc) {
-	l := &sockLane{s: s, srvs: map[string]*wire.Server{}, ccs: map[string]*grpc.ClientConn{}}
-	defer l.close()
-	optsList := []Opts{{}, {Stats: true}, {Unary: "rec", Stream: "rec"}, {Unary: "rec", Stream: "rec", Stats: true}}
-	reported := map[string]bool{}
+	var bases []RPCCase
 	for _, target := range []string{"local", "proxy"} {
 		for _, method := range []string{"Echo", "CS", "SS", "Bidi"} {
 			for _, size := range []int{0, 3, 5, 100} {
 				for _, fail := range []bool{false, true} {
 					in, out := shapeIO(method, size, 2, 2)
-					base := RPCCase{Part: "rpc", Target: target, Proto: "grpc", Method: method, In: in, Out: out, Fail: fail, Code: 5, Msg: "nope"}
-					want := ""
-					for _, o := range optsList {
-						c := base
-						c.Opts = o
-						out, err := l.exec(&c)
-						r.Eval(1)
-						r.Count("socket_rpcs", 1)
-						if err != nil {
-							r.Inconclusive("sockets lane: " + err.Error())
-							return
-						}
-						if o.none() {
-							want = out.Transcript
-							continue
-						}
-						_, srv, _ := l.conn(target, o)
-						if log := srv.ErrLog(); strings.Contains(log, "panic serving") {
-							k := target + "|" + o.key()
-							if !reported[k] {
-								reported[k] = true
-								key, val := panicKeyFromLog(log)
-								r.Count("socket_server_panics", 1)
-								r.Violate(key+":"+c.sizeClass(), fmt.Sprintf("real server, %s grpc %s with %s: net/http recovered a panic: %s (client saw %s)", target, method, o.key(), val, clip(out.Transcript)), &c)
-							}
-							continue // the log is cumulative: later RPCs on this server are not judged
-						}
-						c2 := c
-						c2.Proto = "grpc"
-						vs, obs := s.check(&c2, out)
-						for k, n := range obs {
-							r.Count("socket_"+k, n)
-						}
-						for _, v := range vs {
-							r.Violate(v.key, "real server: "+v.what, map[string]any{"part": "rpc", "case": &c, "events": out.Events, "transcript": out.Transcript, "lane": "sockets"})
-						}
-						if out.Transcript != want {
-							shape := map[string]string{"Echo": "unary", "CS": "cs", "SS": "ss", "Bidi": "bidi"}[method]
-							r.Violate(fmt.Sprintf("%s/grpc:outcome-changed:with=%s:%s", target, o.key(), shape),
-								fmt.Sprintf("real server, grpc-go client: %s %s with %s gives %s, without options %s", target, method, o.key(), clip(out.Transcript), clip(want)),
-								map[string]any{"part": "rpc", "case": &c, "events": out.Events, "transcript": out.Transcript, "lane": "sockets"})
-						} else if len(vs) == 0 {
-							r.Distinct(fmt.Sprintf("sockets/%s/grpc/%s/%s/fail=%v/%s", target, method, c.sizeClass(), fail, o.key()))
-						}
-					}
+					bases = append(bases, RPCCase{Part: "rpc", Target: target, Proto: "grpc", Method: method, In: in, Out: out, Fail: fail, Code: 5, Msg: "nope"})
 				}
+			}
+		}
+	}
+	runSocketCases(r, s, bases, []Opts{{}, {Stats: true}, {Unary: "rec", Stream: "rec"}, {Unary: "rec", Stream: "rec", Stats: true}})
+}
+
+func runSocketCases(r *mon.Run, s *rpcSvc, bases []RPCCase, optsList []Opts) {
+	l := &sockLane{s: s, srvs: map[string]*wire.Server{}, ccs: map[string]*grpc.ClientConn{}}
+	defer l.close()
+	reported := map[string]bool{}
+	for _, base := range bases {
+		target, method, fail := base.Target, base.Method, base.Fail
+		want := ""
+		for _, o := range optsList {
+			c := base
+			c.Opts = o
+			out, err := l.exec(&c)
+			r.Eval(1)
+			r.Count("socket_rpcs", 1)
+			if err != nil {
+				r.Inconclusive("sockets lane: " + err.Error())
+				return
+			}
+			if o.none() {
+				want = out.Transcript
+				continue
+			}
+			_, srv, _ := l.conn(target, o)
+			if log := srv.ErrLog(); strings.Contains(log, "panic serving") {
+				k := target + "|" + o.key()
+				if !reported[k] {
+					reported[k] = true
+					key, val := panicKeyFromLog(log)
+					r.Count("socket_server_panics", 1)
+					r.Violate(key+":"+c.sizeClass(), fmt.Sprintf("real server, %s grpc %s with %s: net/http recovered a panic: %s (client saw %s)", target, method, o.key(), val, clip(out.Transcript)), &c)
+				}
+				continue // the log is cumulative: later RPCs on this server are not judged
+			}
+			c2 := c
+			c2.Proto = "grpc"
+			vs, obs := s.check(&c2, out)
+			for k, n := range obs {
+				r.Count("socket_"+k, n)
+			}
+			for _, v := range vs {
+				r.Violate(v.key, "real server: "+v.what, map[string]any{"part": "rpc", "case": &c, "events": out.Events, "transcript": out.Transcript, "lane": "sockets"})
+			}
+			if out.Transcript != want {
+				shape := map[string]string{"Echo": "unary", "CS": "cs", "SS": "ss", "Bidi": "bidi"}[method]
+				r.Violate(fmt.Sprintf("%s/grpc:outcome-changed:with=%s:%s", target, o.key(), shape),
+					fmt.Sprintf("real server, grpc-go client: %s %s with %s gives %s, without options %s", target, method, o.key(), clip(out.Transcript), clip(want)),
+					map[string]any{"part": "rpc", "case": &c, "events": out.Events, "transcript": out.Transcript, "lane": "sockets"})
+			} else if len(vs) == 0 {
+				r.Distinct(fmt.Sprintf("sockets/%s/grpc/%s/%s/fail=%v/%s", target, method, c.sizeClass(), fail, o.key()))
 			}
 		}
 	}
